@@ -10,7 +10,7 @@ PROPERTY = "C07"
 ENGINE = "bane_world"
 
 TIERS = {
-    "quick": {"n": 2400, "wall_cap_s": 420, "selftest": 24, "shrink_budget_s": 40},
+    "quick": {"n": 1600, "wall_cap_s": 420, "selftest": 24, "shrink_budget_s": 40},
     "thorough": {"n": 40000, "wall_cap_s": 3000, "selftest": 64, "shrink_budget_s": 90},
 }
 
